@@ -309,6 +309,82 @@ pub fn case_lits_and_negation(r: &mut Rng, out: &mut Out) {
             format!("bad lits-parse-error {} text={:?}", e, String::from_utf8_lossy(&bytes)).replace(' ', "_"),
         ),
     }
+    // exact correspondence with Model/Lits.lean: the written file as is, and perturbed / hand-made
+    // variants (other white space, signs, leading zeros, trailing junk, bad names, blank lines)
+    {
+        let mut variants: Vec<Vec<u8>> = vec![bytes.clone()];
+        let alphabet: &[u8] = b"[]=!<>- +_xX09tf \t\n";
+        for _ in 0..3 {
+            let mut v = bytes.clone();
+            if v.is_empty() {
+                break;
+            }
+            match r.below(4) {
+                0 => {
+                    let i = r.usize(v.len());
+                    v[i] = *r.pick(alphabet);
+                }
+                1 => {
+                    let i = r.usize(v.len());
+                    let _ = v.remove(i);
+                }
+                2 => {
+                    let i = r.usize(v.len() + 1);
+                    v.insert(i, *r.pick(alphabet));
+                }
+                _ => {
+                    let extra: [&[u8]; 6] = [b"\n\n", b"  7 [y >= +3] \n", b"007 [_a == true] junk\n", b"5 [b1 != -0]\n", b"4294967296 [x <= 1]\n", b"3 [x == true][y <= 2]\n"];
+                    let i = r.usize(extra.len());
+                    v.extend_from_slice(extra[i]);
+                }
+            }
+            variants.push(v);
+        }
+        for v in variants {
+            if !v.is_ascii() {
+                continue;
+            }
+            let res = match LiteralDefinitions::<String>::parse(&v[..]) {
+                Err(_) => "err".to_string(),
+                Ok(parsed) => {
+                    // the codes that can occur: all numbers in the text
+                    let text = String::from_utf8_lossy(&v).into_owned();
+                    let mut codes: Vec<u32> = text
+                        .split(|c: char| !c.is_ascii_digit())
+                        .filter_map(|t| t.parse::<u32>().ok())
+                        .filter(|c| *c != 0)
+                        .collect();
+                    codes.sort();
+                    codes.dedup();
+                    let mut s = String::from("ok");
+                    for c in codes {
+                        if let Some(atomics) = parsed.get(NonZero::new(c).unwrap()) {
+                            s.push_str(&format!(" {} {}", c, atomics.len()));
+                            for a in atomics {
+                                match a {
+                                    AtomicConstraint::Int(i) => s.push_str(&format!(
+                                        " i {} {} {}",
+                                        i.name,
+                                        match i.comparison {
+                                            Comparison::GreaterThanEqual => "ge",
+                                            Comparison::LessThanEqual => "le",
+                                            Comparison::Equal => "eq",
+                                            Comparison::NotEqual => "ne",
+                                        },
+                                        i.value
+                                    )),
+                                    AtomicConstraint::Bool(b) => s.push_str(&format!(" b {} {}", b.name, b.value)),
+                                }
+                            }
+                        }
+                    }
+                    s
+                }
+            };
+            let toks: Vec<String> = v.iter().map(|b| b.to_string()).collect();
+            out.push(format!("litsfile {} {} :: {}", v.len(), toks.join(" "), res));
+        }
+    }
     // deterministic output: writing twice gives the same bytes, in code order
     let mut bytes2: Vec<u8> = vec![];
     defs.write(&mut bytes2).unwrap();
